@@ -342,7 +342,7 @@ FACTORS = [
     ("clu", ["off", "on", "on-nonorm", "on-cap2"]),
     ("vv", [None, 0.5]),
     ("eval", ["vec", "scalar", "blobs", "poolobj_blobs"]),
-    ("boundary", ["none", "per0", "ref1", "per0ref1", "sets"]),
+    ("boundary", ["none", "per0", "ref1", "per0ref1", "sets", "dup0", "dup1ref"]),
     ("prior", ["affine", "nonlinear", "affine-list", "affine-index", "identity-view"]),  # incl. a transform returning a list, one writing components by index, one handing back its argument
     ("target", ["gauss", "bimodal", "unequal", "sharp"]),
     ("cluster_every", [1, 3]),
